@@ -2,6 +2,7 @@ import MirModel.Segment
 import MirProofs.Lemmas.Segment
 import MirProofs.Lemmas.SegmentReal
 import MirProofs.Lemmas.SegmentText
+import MirProofs.Lemmas.SegmentRel
 /-!
   C16 — segment labelling scores equal their clustering-index definitions.
 
@@ -407,5 +408,51 @@ theorem ami_textbook (yr ye : List Nat) (h : yr.length = ye.length) (hs : ¬ miS
 
 example : rowSums (contingency [0, 0, 1, 1] [0, 1, 1, 1]) = [2, 2] ∧
     colSums (contingency [0, 0, 1, 1] [0, 1, 1, 1]) 2 = [1, 3] := by decide +kernel
+
+/-! ### the frame sampler is the interval denotation of C13
+
+  `frameLabels ivs labs fs` is what the six metrics are computed from (`frameIndices = indexLabels ∘ frameLabels`).
+  Below, an annotation is a list `xs` of labelled rows `(start, end, label)` (`Mir.LI Label`), handed to the segment
+  functions as the two arrays `Iv.ivals xs`, `Iv.labels xs`. -/
+
+/-- **frames_are_samples.** The frame labels are exactly the label array of the C13 model of
+    `util.intervals_to_samples` (offset 0, `fill_value=None`), whose sample times are `i · fs`, `i < ⌊max/fs⌋`:
+    any non-empty list of rows (sorted or not, overlapping or not), any positive frame size. -/
+theorem frames_are_samples (xs : LI Label) (fs : ℚ) (hfs : 0 < fs) (hne : xs ≠ []) :
+    Iv.intervalsToSamples (someRows xs) 0 fs none =
+      .ok (Iv.sampleTimes (numSamples (Iv.ivals xs) fs) fs 0, frameLabels (Iv.ivals xs) (Iv.labels xs) fs) :=
+  frameLabels_eq_intervalsToSamples xs fs hfs hne
+
+/-- each frame label is the closed-span denotation `labelAtC` (the later row wins, in particular at a shared
+    boundary) at the frame time — whatever the rows -/
+theorem frames_are_labelAtC (xs : LI Label) (fs : ℚ) :
+    frameLabels (Iv.ivals xs) (Iv.labels xs) fs =
+      (List.range (numSamples (Iv.ivals xs) fs)).map fun (i : Nat) => Iv.labelAtC xs ((i : ℚ) * fs) :=
+  frameLabels_eq_map_labelAtC xs fs
+
+/-- **frames_are_labelAt.** For a segmentation as `validate_structure` documents it (contiguous rows of positive
+    duration starting at or before 0), the frame-label sequence is the annotation's own half-open denotation
+    `labelAt` (C13: the label of the row `[s, e)` containing `t`) at the times `0, fs, 2·fs, …`, and every frame
+    carries a label (the fill value `None` never appears). -/
+theorem frames_are_labelAt {lo : ℚ} {xs : LI Label} (hc : Iv.Contig lo xs) (hlo : lo ≤ 0) {fs : ℚ} (hfs : 0 < fs) :
+    frameLabels (Iv.ivals xs) (Iv.labels xs) fs =
+        (List.range (numSamples (Iv.ivals xs) fs)).map (fun (i : Nat) => Iv.labelAt xs ((i : ℚ) * fs)) ∧
+      ∀ l ∈ frameLabels (Iv.ivals xs) (Iv.labels xs) fs, l ≠ none :=
+  frameLabels_eq_labelAt hc hlo hfs
+
+/-- with gaps between the rows (sorted, non-overlapping): wherever the annotation has a label at a frame time,
+    the frame carries it -/
+theorem frames_carry_labelAt {lo : ℚ} {xs : LI Label} (hc : Iv.Chain lo xs) (fs : ℚ) {i : Nat}
+    (hi : i < numSamples (Iv.ivals xs) fs) {l : Label} (h : Iv.labelAt xs ((i : ℚ) * fs) = some l) :
+    (frameLabels (Iv.ivals xs) (Iv.labels xs) fs)[i]? = some (some l) :=
+  frameLabels_of_labelAt hc fs hi h
+
+example : Iv.Contig 0 [((0 : ℚ), (1 : ℚ), ['a']), (1, 2, ['b'])] ∧
+    frameLabels [(0, 1), (1, 2)] [['a'], ['b']] (1/2) = [some ['a'], some ['a'], some ['b'], some ['b']] ∧
+    (List.range 4).map (fun (i : Nat) => Iv.labelAt [((0 : ℚ), (1 : ℚ), ['a']), (1, 2, ['b'])] ((i : ℚ) * (1/2))) =
+      [some ['a'], some ['a'], some ['b'], some ['b']] ∧
+    Iv.intervalsToSamples (someRows [((0 : ℚ), (1 : ℚ), ['a']), (1, 2, ['b'])]) 0 (1/2) none =
+      .ok ([0, 1/2, 1, 3/2], [some ['a'], some ['a'], some ['b'], some ['b']]) := by
+  refine ⟨⟨?_, ?_, ?_, ?_, trivial⟩, ?_, ?_, ?_⟩ <;> decide +kernel
 
 end Mir.C16
